@@ -13,6 +13,12 @@ pub trait BodyGen: Serialize + JsonSchema + Send + Sync + Sized + 'static {
     const FLOAT: FloatMode = FloatMode::F64;
     /// (value, value class)
     fn gen(rng: &mut Rng) -> (Self, String);
+    /// The value as an own exact JSON tree, for types serde_json::Value cannot
+    /// represent (integers beyond 64 bits): written from the value's fields,
+    /// integers in canonical decimal.  None: serde_json::to_value is the reference.
+    fn exact(&self) -> Option<crate::jsonp::J> {
+        None
+    }
 }
 
 impl BodyGen for () {
@@ -374,6 +380,81 @@ impl BodyGen for serde_json::Value {
             serde_json::Value::Object(_) => "object",
         };
         (v, c.into())
+    }
+}
+
+// -------------------------------------------------------- 128-bit integers
+
+use crate::c14::{wide_i128, wide_u128};
+use crate::jsonp::J;
+
+fn jn<T: std::fmt::Display>(n: T) -> J {
+    J::Num(n.to_string())
+}
+
+#[derive(Serialize, Deserialize, JsonSchema, Debug, Clone, PartialEq)]
+pub struct WideBody {
+    pub id: u128,
+    pub offset: i128,
+    pub name: String,
+    pub more: Vec<u128>,
+    pub maybe: Option<i128>,
+    pub by_name: BTreeMap<String, i128>,
+    pub small: u64,
+}
+
+impl BodyGen for WideBody {
+    const NAME: &'static str = "struct-128-bit";
+    fn gen(rng: &mut Rng) -> (Self, String) {
+        let (id, ic) = wide_u128(rng);
+        let (offset, oc) = wide_i128(rng);
+        let n = rng.usize(4);
+        let m = rng.usize(3);
+        let v = WideBody {
+            id,
+            offset,
+            name: any_string(rng).0,
+            more: (0..n).map(|_| wide_u128(rng).0).collect(),
+            maybe: if rng.bool() { Some(wide_i128(rng).0) } else { None },
+            by_name: (0..m).map(|i| (format!("k{i}"), wide_i128(rng).0)).collect(),
+            small: extreme_u64(rng),
+        };
+        (v, format!("u128:{ic}|i128:{oc}"))
+    }
+    fn exact(&self) -> Option<J> {
+        Some(J::Obj(vec![
+            ("id".into(), jn(self.id)),
+            ("offset".into(), jn(self.offset)),
+            ("name".into(), J::Str(self.name.clone())),
+            ("more".into(), J::Arr(self.more.iter().map(jn).collect())),
+            ("maybe".into(), self.maybe.map(jn).unwrap_or(J::Null)),
+            ("by_name".into(), J::Obj(self.by_name.iter().map(|(k, v)| (k.clone(), jn(v))).collect())),
+            ("small".into(), jn(self.small)),
+        ]))
+    }
+}
+
+impl BodyGen for u128 {
+    const NAME: &'static str = "u128";
+    fn gen(rng: &mut Rng) -> (Self, String) {
+        let (v, c) = wide_u128(rng);
+        (v, c.into())
+    }
+    fn exact(&self) -> Option<J> {
+        Some(jn(self))
+    }
+}
+
+impl BodyGen for Vec<i128> {
+    const NAME: &'static str = "vec-i128";
+    fn gen(rng: &mut Rng) -> (Self, String) {
+        let n = 1 + rng.usize(5);
+        let v: Vec<i128> = (0..n).map(|_| wide_i128(rng).0).collect();
+        let beyond = v.iter().any(|x| *x < i64::MIN as i128 || *x > u64::MAX as i128);
+        (v, (if beyond { "beyond-64-bit" } else { "within-64-bit" }).into())
+    }
+    fn exact(&self) -> Option<J> {
+        Some(J::Arr(self.iter().map(jn).collect()))
     }
 }
 
